@@ -165,3 +165,5 @@ def check(run):
               ('C05/dcs', lambda cl: b_dcs(cl, m3, H, False), ()), ('C05/dcsp', lambda cl: b_dcs(cl, m4, H, True), ()),
               ('C05/kissel', lambda cl: b_kissel_totals(cl, m5, H), ())]
     bcheck.run_groups(run, groups)
+    from vlib import datalemma
+    datalemma.attach(run, 'C05', want=('weights',))
